@@ -1,11 +1,11 @@
 (* Extraction of the executable model (which calls the GENERATED GetVertices / Ceil). ExtrOcamlBasic only. *)
 From Coq Require Import ZArith List Extraction ExtrOcamlBasic.
 From MomoCommon Require Import GenPrelude.
-From C18 Require Gen_Vertices Gen_Ceil Gen_List Gen_Raw Gen_Bits Model RawLife Static.
+From C18 Require Gen_Vertices Gen_Ceil Gen_List Gen_Raw Gen_Bits Gen_Mut Model RawLife Static.
 Separate Extraction
   Gen_Vertices.GetVertices Gen_Ceil.Ceil
   List.filter (* lib/zutil.ml says List.filter, and the extracted List.ml shadows OCaml's *)
   Model.init Model.add Model.after Model.get_offset Model.contains Model.vertices Model.is_mutable Model.add_f
   Static.struct_layout Static.s_get_offset Static.s_contains Static.s_total Static.s_set_mutable Static.s_reset Static.s_is_mutable
   RawLife.create_raw RawLife.destroy_raw RawLife.create_raw_idx
-  Gen_List.pvGetOffset Gen_List.vertexCount Gen_Vertices.maxCodeParam Gen_Vertices.maxColumnCount Model.lookup_gen Gen_List.Contains Model.contains_gen Gen_Raw.pvCreateRaw Gen_Bits.GetBit Gen_Bits.SetBit.
+  Gen_List.pvGetOffset Gen_List.vertexCount Gen_Vertices.maxCodeParam Gen_Vertices.maxColumnCount Model.lookup_gen Gen_List.Contains Model.contains_gen Gen_Raw.pvCreateRaw Gen_Bits.GetBit Gen_Bits.SetBit Gen_Mut.IsMutable.
